@@ -68,4 +68,11 @@ theorem source_newFBError : GeneratedSrc.newFBError = ExpectedSrc.newFBError := 
 theorem source_tyEventError : GeneratedSrc.tyEventError = ExpectedSrc.tyEventError := by rfl
 theorem source_tyFBError : GeneratedSrc.tyFBError = ExpectedSrc.tyFBError := by rfl
 
+
+/-! ### functions the model's assumptions rest on (construction, wiring, surrounding calls) are unchanged -/
+theorem source_kpSetup : GeneratedSrc.kpSetup = ExpectedSrc.kpSetup := by rfl
+theorem source_kpStartEventsReceiver : GeneratedSrc.kpStartEventsReceiver = ExpectedSrc.kpStartEventsReceiver := by rfl
+theorem source_kpStop : GeneratedSrc.kpStop = ExpectedSrc.kpStop := by rfl
+theorem source_kpShutdown : GeneratedSrc.kpShutdown = ExpectedSrc.kpShutdown := by rfl
+
 end Firebolt.C15
